@@ -30,7 +30,7 @@ fn sessions(tier: Tier, seed: u64) -> Vec<Session> {
 /// Accounts whose NAME has a shape a shortcut in hashing or normalising the name would get wrong (the reconnect proof
 /// hashes the name): blanks at either end, runs of blanks, characters bordering the letter ranges, one character.
 fn odd_name_sessions(seed: u64) -> Vec<Session> {
-    sessions_of(vec![("bob ", "pw", "n0"), (" lead", "pw", "n1"), ("a  b", "pw", "n2"), ("pass|zone", "pw", "n3"), ("@a[z`{~", "pw", "n4"), ("z", "pw", "n5"), ("0123456789abcde", "pw", "n6"), ("  ", "pw", "n7")], seed)
+    sessions_of(vec![("bob ", "pw", "n0"), (" lead", "pw", "n1"), ("a  b", "pw", "n2"), ("pass|zone", "pw", "n3"), ("@a[z`{~", "pw", "n4"), ("z", "pw", "n5"), ("0123456789abcde", "pw", "n6"), ("  ", "pw", "n7"), ("o'brien\"\\", "pw", "n8")], seed)
 }
 
 fn sessions_of(specs: Vec<(&str, &str, &str)>, seed: u64) -> Vec<Session> {
